@@ -104,8 +104,12 @@ SCALES = [
     ("all_small", dict(H=1e-9, F=1e-10, U=1e-10, P=1e-20)),
     ("all_big", dict(H=1e6, F=1e8, U=1e8, P=1e16)),
     ("U_per_user", dict(Umix=(1e-10, 1.0, 1e8, 1e-3))),
+    # falsy-but-valid values (unit scale)
+    ("PL_zero_cross_link", dict(PL="zero_cross")),      # path loss exactly 0 from Tx 1 to Rx 0
+    ("F_zero_column", dict(Fzero=True)),                # a stream with zero power -> SINR 0
+    ("pe_zero", dict(pes=(0, 0.0))),
 ]
-SCALE_NOISES = [None, 0, 1e-13, 1e-20]
+SCALE_NOISES = [None, 0, 0.0, 1e-13, 1e-20]
 SCALE_PES = [None, 1e-12]
 SOLVE_SAFETY = 8.0      # relations through the solver's solve(W^H H F, W^H): kappa = 8 cond(W^H H F) (1+SINR)
 
@@ -119,6 +123,9 @@ NTE_THOROUGH = [1, [1, 1], 2, [2, 1]]
 SOLVERS_QUICK = ["IASolverBaseClass", "MaxSinrIASolver"]
 SOLVERS_THOROUGH = ["IASolverBaseClass", "ClosedFormIASolver", "MaxSinrIASolver", "MMSEIASolver"]
 FMODES = ["F_P1", "F_Pvec", "fullF"]
+# further legal argument combinations of set_precoders (python lists as containers); "backoff":
+# an explicit full_F = b_k sqrt(P_k) F_k with b_k != 1 next to F (and P)
+FMODES_EXTRA = ["fullF_P", "F_fullF_backoff", "F_fullF_P_backoff"]
 WMODES = ["W", "W_H"]
 
 
@@ -164,6 +171,11 @@ def all_cases(tier):
                                 for wmode in WMODES:
                                     yield dict(base, kind="solver", chan="plain", NtE=None, pe=None,
                                                cls=cls, fmode=fmode, wmode=wmode)
+                        for i_, fmode in enumerate(FMODES_EXTRA):
+                            yield dict(base, kind="solver", chan="plain", NtE=None, pe=None,
+                                       cls=solvers[0], fmode=fmode, wmode=WMODES[i_ % 2])
+                            yield dict(base, kind="solver", chan="ext", NtE=ntes[0], pe=None,
+                                       cls=solvers[0], fmode=fmode, wmode=WMODES[(i_ + 1) % 2])
                         # the solver bound to the external-interference channel (its API has no pe
                         # argument: the library default pe = 1 is the only power it can mean)
                         for NtE in ntes:
@@ -187,12 +199,15 @@ def scale_cases(tier):
                     base = dict(Nr=list(Nr), Nt=list(Nt), Ns=list(Ns), pl=1 if "PL" in sc else 0,
                                 noise=noise, s=s, offs=offs, scale=name)
                     for var in ("IC", "JP"):
-                        yield dict(base, kind="chan", chan="plain", NtE=None, pe=None, var=var,
-                                   int_layout=False)
+                        if "pes" not in sc:
+                            yield dict(base, kind="chan", chan="plain", NtE=None, pe=None,
+                                       var=var, int_layout=False)
                         for NtE in (1, [1, 1]):
-                            for pe in SCALE_PES:
+                            for pe in sc.get("pes", SCALE_PES):
                                 yield dict(base, kind="chan", chan="ext", NtE=NtE, pe=pe, var=var,
                                            int_layout=False)
+                    if "Fzero" in sc or "pes" in sc:
+                        continue        # (W^H H F is singular with a silent stream; no pe argument)
                     for fmode in FMODES:
                         wmode = WMODES[(FMODES.index(fmode) + len(name)) % 2]
                         yield dict(base, kind="solver", chan="plain", NtE=None, pe=None,
@@ -240,6 +255,13 @@ def make_inputs(case):
         Fjp = [M * sc["F"] for M in Fjp]
     if "U" in sc:
         U = [M * sc["U"] for M in U]
+    if "Fzero" in sc:
+        # last stream of the first user with two streams (else the whole first user) is silent
+        kz = next((k for k in range(K) if Ns[k] > 1), 0)
+        F[kz] = np.array(F[kz], copy=True)
+        F[kz][:, -1] = 0.0
+        Fjp[kz] = np.array(Fjp[kz], copy=True)
+        Fjp[kz][:, -1] = 0.0
     if "Umix" in sc:
         U = [U[k] * sc["Umix"][k % len(sc["Umix"])] for k in range(K)]
     if "PL" in sc:
@@ -247,6 +269,8 @@ def make_inputs(case):
         PL = 0.02 + 1.3 * (np.abs(g) - 0.1) ** 2
         if sc["PL"] == "uniform":
             PL = PL * 1e-16                                 # about -160 dB on every link
+        elif sc["PL"] == "zero_cross":
+            PL[0, 1] = 0.0
         else:
             ex = np.array([[12 + (3 * i + 5 * j) % 6 for j in range(PL.shape[1])]
                            for i in range(PL.shape[0])], dtype=float)
@@ -635,6 +659,21 @@ def run_chan_case(case, chk, live=None):
                 chk.fail((view, name, "list_vs_object_array"), case, observed=list(got_l),
                          expected=list(got))
 
+        # 3a. the same power through every spelling of the argument
+        if ext and case["pe"] is not None and not live:
+            variants = [("keyword", lambda: fn(objarr(Fl), objarr(Ul), pe=case["pe"])),
+                        ("np.float64", lambda: fn(objarr(Fl), objarr(Ul), np.float64(case["pe"])))]
+            if float(case["pe"]) == int(case["pe"]):
+                variants.append(("int", lambda: fn(objarr(Fl), objarr(Ul), int(case["pe"]))))
+                variants.append(("float", lambda: fn(objarr(Fl), objarr(Ul), float(case["pe"]))))
+            for vname, call in variants:
+                got_v = call()
+                chk.count("eval_pe_argument_forms")
+                if not all(np.array_equal(np.asarray(got_v[k]), np.asarray(got[k]))
+                           for k in range(K)):
+                    chk.fail((view, name, "pe_argument_form", vname), case, observed=list(got_v),
+                             expected=list(got))
+
         # 3. pe omitted == pe = 1.0
         if ext and case["pe"] is None and not live:
             got_1 = fn(objarr(Fl), objarr(Ul), 1.0)
@@ -735,9 +774,20 @@ def solver_inputs(case, inp):
     elif fmode == "F_Pvec":
         P = np.array(P_UNEQUAL[:K], dtype=float) * inp.get("Pscale", 1.0)
         fullF = [Fn[k] * math.sqrt(P[k]) for k in range(K)]
-    else:
+    elif fmode == "fullF":
         P = None
         fullF = [inp["F"][k] * (1.7 + 0.9 * k) for k in range(K)]           # arbitrary scale
+    elif fmode == "fullF_P":
+        P = np.array(P_UNEQUAL[:K], dtype=float)
+        fullF = [inp["F"][k] * (1.7 + 0.9 * k) for k in range(K)]           # used as given
+    elif fmode == "F_fullF_backoff":
+        P = None
+        fullF = [Fn[k] * BACKOFF[k % len(BACKOFF)] for k in range(K)]
+    elif fmode == "F_fullF_P_backoff":
+        P = np.array(P_UNEQUAL[:K], dtype=float)
+        fullF = [Fn[k] * (BACKOFF[k % len(BACKOFF)] * math.sqrt(P[k])) for k in range(K)]
+    else:
+        raise ValueError(fmode)
     return Fn, P, fullF
 
 
@@ -782,13 +832,26 @@ def run_solver_case(case, chk, live=None):
 
         def make_solver(Wmats):
             sol = cls(ch)
-            if case["fmode"] == "fullF":
+            fm = case["fmode"]
+            if fm in FMODES_EXTRA:
+                kw = dict(full_F=[np.array(m) for m in fullF])          # python lists
+                if "F_" in fm:
+                    kw["F"] = [np.array(m) for m in Fn]
+                if P is not None:
+                    kw["P"] = np.array(P)
+                sol.set_precoders(**kw)
+            elif case["fmode"] == "fullF":
                 sol.set_precoders(full_F=objarr([np.array(m) for m in fullF]))
             elif P is None:
                 sol.set_precoders(F=objarr([np.array(m) for m in Fn]))
             else:
                 sol.set_precoders(F=objarr([np.array(m) for m in Fn]), P=np.array(P))
-            if case["wmode"] == "W":
+            if case["fmode"] in FMODES_EXTRA:                            # python lists
+                if case["wmode"] == "W":
+                    sol.set_receive_filters(W=[np.array(m) for m in Wmats])
+                else:
+                    sol.set_receive_filters(W_H=[np.array(m).conj().T for m in Wmats])
+            elif case["wmode"] == "W":
                 sol.set_receive_filters(W=objarr([np.array(m) for m in Wmats]))
             else:
                 sol.set_receive_filters(W_H=objarr([np.array(m).conj().T for m in Wmats]))
@@ -969,15 +1032,17 @@ EV_FULL = ([("pl", 0), ("pl", 1), ("pl", 2), ("pl", 3)] +
            [("noise", i) for i in range(len(H_NOISES))] +
            [("init", 1), ("init", 0), ("rand", 2)] +
            [("setF", "a"), ("setF", "b"), ("setFull", "b"), ("setW", "a"), ("setW", "b"),
-            ("setW", "c")] +
-           [("P", 0), ("P", 1)] +
+            ("setW", "c"), ("setBoth", "b")] +
+           [("P", 0), ("P", 1)] + [("bad", "channel"), ("bad", "solver")] +
            [("touch", "IC"), ("touch", "JP"), ("touch", "solver")])
 EV_CORE = [("pl", 0), ("pl", 1), ("pl", 3), ("noise", 0), ("noise", 2), ("init", 1), ("rand", 2),
-           ("setF", "b"), ("setW", "c"), ("P", 1),
+           ("setF", "b"), ("setW", "c"), ("P", 1), ("setBoth", "b"), ("bad", "channel"),
+           ("bad", "solver"),
            ("touch", "IC"), ("touch", "JP"), ("touch", "solver")]
 EVENT_NAME = {"pl": "set_pathloss", "noise": "noise_var", "init": "init_from_channel_matrix",
               "rand": "randomize", "setF": "set_precoders", "setFull": "set_precoders",
-              "setW": "set_receive_filters", "P": "P_setter"}
+              "setW": "set_receive_filters", "P": "P_setter", "setBoth": "set_precoders",
+              "bad": "rejected_call"}
 
 
 def hist_configs(tier):
@@ -985,7 +1050,8 @@ def hist_configs(tier):
     thorough = tier == "thorough"
     classes = [("plain", None), ("ext", 1), ("ext", [1, 1])]
     out = []
-    out.append(("ext", 1, [2, 2], [2, 2], [2, 1], 0, "full", 3))
+    out.append(("ext", 1, [2, 2], [2, 2], [2, 1], 0, "full", 2))
+    out.append(("ext", 1, [2, 2], [2, 2], [2, 1], 0, "core", 3))
     out.append(("plain", None, [2, 2], [2, 2], [2, 1], 0, "full", 2))
     out.append(("plain", None, [2, 2], [2, 2], [2, 1], 0, "core", 3))
     out.append(("ext", [1, 1], [2, 2], [2, 2], [2, 1], 0, "full", 2))
@@ -1049,6 +1115,8 @@ def hist_model(hist):
                 m["cached"] = True
             continue
         m["last"] = EVENT_NAME[kind]
+        if kind == "bad":               # a rejected call changes nothing
+            continue
         if kind == "pl":
             m["pl"] = arg
         elif kind == "noise":
@@ -1059,16 +1127,21 @@ def hist_model(hist):
             m["F"] = ("unit", arg)
         elif kind == "setFull":
             m["F"] = ("full", arg)
+        elif kind == "setBoth":
+            m["F"] = ("backoff", arg)
+            m["P"] = 1
         elif kind == "setW":
             m["W"] = arg
         elif kind == "P":
             m["P"] = arg
             if m["F"][0] == "full":          # an explicit full_F is dropped with the power
                 m["F"] = ("unit_of_full", m["F"][1])
+            elif m["F"][0] == "backoff":
+                m["F"] = ("unit", m["F"][1])
         if kind in ("pl", "init", "rand"):
             if m["cached"]:
                 m["stale"] = True            # solver's derived filter belongs to the old channel
-        elif kind in ("setF", "setFull", "setW", "P"):
+        elif kind in ("setF", "setFull", "setBoth", "setW", "P"):
             m["cached"] = m["stale"] = False
     return m
 
@@ -1079,12 +1152,14 @@ def model_precoders(m, data):
     how, which = m["F"]
     P = data["Pvec"] if m["P"] else None
     scaled = [data["F"][which][k] * (1.7 + 0.9 * k) for k in range(K)]
-    if how == "unit":
+    if how in ("unit", "backoff"):
         Fn = _unit(data["F"][which])
     else:
         Fn = _unit(scaled)
     if how == "full":
         fullF = scaled
+    elif how == "backoff":
+        fullF = backoff_full_F(data, which)
     else:
         fullF = [Fn[k] * (math.sqrt(P[k]) if P is not None else 1.0) for k in range(K)]
     return Fn, P, fullF
@@ -1094,80 +1169,182 @@ class HistState:
     pass
 
 
-def hist_build(cfg, data, hist):
+def _digest_state(st):
+    from vmc import bfs
+    return bfs.digest([vars(st.ch)] + [{k: v for k, v in vars(o).items() if k != "_multiUserChannel"}
+                                        for o in st.solvers()], 9)
+
+
+BACKOFF = (0.6, 0.25, 0.9, 0.5)      # per-user power back-off of an explicitly given full_F
+
+
+def backoff_full_F(data, which):
+    """full_F = b_k sqrt(P_k) F_k with b_k != 1 (the transmitter does not use all its power)"""
+    Fn = _unit(data["F"][which])
+    return [Fn[k] * (BACKOFF[k % len(BACKOFF)] * math.sqrt(float(data["Pvec"][k])))
+            for k in range(data["K"])]
+
+
+def hist_new(cfg, data, second_solver=False):
+    """fresh channel object (family member 0, no path loss, no noise) + bound solver(s)"""
     from pyphysim.channels import multiuser
     from pyphysim.ia.iabase import IASolverBaseClass
-    from vmc import seams
-    Nr, Nt = np.array(cfg["Nr"]), np.array(cfg["Nt"])
+    ext = cfg["chan"] == "ext"
+    st = HistState()
+    st.rejected = []          # (sub-call, raised?, object unchanged?) of every invalid call made
+    st.ch = multiuser.MultiUserChannelMatrixExtInt() if ext else multiuser.MultiUserChannelMatrix()
+    _hist_init(cfg, data, st, 0)
+    st.sol = IASolverBaseClass(st.ch)
+    st.sol.set_precoders(F=objarr(_unit(data["F"]["a"])))
+    st.sol.set_receive_filters(W=objarr([np.array(m_) for m_ in data["W"]["a"]]))
+    st.sol2 = None
+    if second_solver:         # a second solver on the SAME channel object, never changed afterwards
+        st.sol2 = IASolverBaseClass(st.ch)
+        st.sol2.set_precoders(F=[np.array(m_) for m_ in _unit(data["F"]["b"])],
+                              P=np.array(data["Pvec"]))
+        st.sol2.set_receive_filters(W_H=[np.array(m_).conj().T for m_ in data["W"]["b"]])
+    st.solvers = lambda: [o for o in (st.sol, st.sol2) if o is not None]
+    return st
+
+
+def _nte_arg(cfg):
+    NtE = cfg["NtE"]
+    if cfg["chan"] != "ext":
+        return None
+    return int(NtE) if isinstance(NtE, (int, np.integer)) else [int(v) for v in NtE]
+
+
+def _hist_init(cfg, data, st, mem):
+    Hm = np.array(data["H"][mem], copy=True)
+    K = data["K"]
+    if cfg["chan"] == "ext":
+        st.ch.init_from_channel_matrix(Hm, np.array(cfg["Nr"]), np.array(cfg["Nt"]), K,
+                                       _nte_arg(cfg))
+    else:
+        st.ch.init_from_channel_matrix(Hm, np.array(cfg["Nr"]), np.array(cfg["Nt"]), K)
+
+
+def invalid_calls(cfg, data, st, which):
+    """(name, thunk) of calls the library must reject; the object must stay as it was"""
     K = data["K"]
     ext = cfg["chan"] == "ext"
-    NtE = cfg["NtE"]
-    NtE_arg = None if not ext else (int(NtE) if isinstance(NtE, (int, np.integer))
-                                    else [int(v) for v in NtE])
-
-    def init(mem):
-        Hm = np.array(data["H"][mem], copy=True)
+    ch, sol = st.ch, st.sol
+    Nr, Nt = np.array(cfg["Nr"]), np.array(cfg["Nt"])
+    Fa, Wa = data["F"]["a"], data["W"]["a"]
+    H1 = np.array(data["H"][1], copy=True)
+    more = (_nte_arg(cfg),) if ext else ()
+    if which == "channel":
+        calls = [
+            ("init_from_channel_matrix(wrong shape)",
+             lambda: ch.init_from_channel_matrix(H1[:-1, :], Nr, Nt, K, *more)),
+            ("init_from_channel_matrix(K mismatch)",
+             lambda: ch.init_from_channel_matrix(H1, Nr, Nt, K + 1, *more)),
+            ("noise_var=-1", lambda: setattr(ch, "noise_var", -1.0)),
+        ]
         if ext:
-            ch.init_from_channel_matrix(Hm, np.array(Nr), np.array(Nt), K, NtE_arg)
-        else:
-            ch.init_from_channel_matrix(Hm, np.array(Nr), np.array(Nt), K)
+            calls += [
+                ("init_from_channel_matrix(NtE not matching the matrix)",
+                 lambda: ch.init_from_channel_matrix(H1, Nr, Nt, K, [3, 1])),
+                ("set_pathloss(P, ext_int_pathloss missing)",
+                 lambda: ch.set_pathloss(np.ones((K, K)))),
+            ]
+        return calls
+    return [
+        ("P=0", lambda: setattr(sol, "P", 0.0)),
+        ("P=[.., -1]", lambda: setattr(sol, "P", np.array([1.0] * (K - 1) + [-1.0]))),
+        ("P of wrong length", lambda: setattr(sol, "P", np.ones(K + 1))),
+        ("set_precoders()", lambda: sol.set_precoders()),
+        ("set_precoders(F of K-1 users)", lambda: sol.set_precoders(F=objarr(_unit(Fa)[:-1]))),
+        ("set_precoders(F, P=[.., -1])",
+         lambda: sol.set_precoders(F=objarr(_unit(Fa)), P=np.array([1.0] * (K - 1) + [-1.0]))),
+        ("set_receive_filters()", lambda: sol.set_receive_filters()),
+        ("set_receive_filters(W, W_H)",
+         lambda: sol.set_receive_filters(W=objarr([np.array(m_) for m_ in Wa]),
+                                         W_H=objarr([np.array(m_).conj().T for m_ in Wa]))),
+    ]
 
-    ch = multiuser.MultiUserChannelMatrixExtInt() if ext else multiuser.MultiUserChannelMatrix()
-    init(0)
-    sol = IASolverBaseClass(ch)
-    sol.set_precoders(F=objarr(_unit(data["F"]["a"])))
-    sol.set_receive_filters(W=objarr([np.array(m_) for m_ in data["W"]["a"]]))
-    st = HistState()
-    st.ch, st.sol = ch, sol
+
+def hist_apply(cfg, data, st, ev):
+    """execute one event on the live objects"""
+    from pyphysim.channels import multiuser
+    from vmc import seams
+    kind, arg = ev
+    ch, sol = st.ch, st.sol
+    K = data["K"]
+    ext = cfg["chan"] == "ext"
+    Nr, Nt = np.array(cfg["Nr"]), np.array(cfg["Nt"])
     pe_touch = (0.5,) if ext else ()
-    for kind, arg in hist:
-        if kind == "pl":
-            PLm = data["PL"][arg]
-            if PLm is None:
-                ch.set_pathloss(None)
-            elif ext:
-                ch.set_pathloss(np.array(PLm[:, :K], copy=True), np.array(PLm[:, K:], copy=True))
-            else:
-                ch.set_pathloss(np.array(PLm, copy=True))
-        elif kind == "noise":
-            ch.noise_var = H_NOISES[arg]
-        elif kind == "init":
-            init(arg)
-        elif kind == "rand":
-            # the library's only random draw is scripted: it returns family member `arg`
-            def fake(_rs, *shape, H2=data["H"][arg]):
-                assert tuple(int(v) for v in shape) == H2.shape, (shape, H2.shape)
-                return np.array(H2, copy=True)
-            with seams.patched((multiuser, "randn_c_RS", fake)):
-                if ext:
-                    ch.randomize(np.array(Nr), np.array(Nt), K, NtE_arg)
-                else:
-                    ch.randomize(np.array(Nr), np.array(Nt), K)
-        elif kind == "setF":
-            sol.set_precoders(F=objarr(_unit(data["F"][arg])))
-        elif kind == "setFull":
-            sol.set_precoders(full_F=objarr([data["F"][arg][k] * (1.7 + 0.9 * k)
-                                             for k in range(K)]))
-        elif kind == "setW":
-            if arg in ("a", "c"):
-                sol.set_receive_filters(W=objarr([np.array(m_) for m_ in data["W"][arg]]))
-            else:
-                sol.set_receive_filters(W_H=objarr([np.array(m_).conj().T
-                                                    for m_ in data["W"][arg]]))
-        elif kind == "P":
-            sol.P = np.array(data["Pvec"]) if arg else None
-        elif kind == "touch":
-            if arg == "IC":
-                ch.calc_SINR(objarr(data["F"]["a"]), objarr(data["U"]), *pe_touch)
-                ch.calc_Q(0, objarr(data["F"]["a"]), *pe_touch)
-            elif arg == "JP":
-                ch.calc_JP_SINR(objarr(data["Fjp"]), objarr(data["U"]), *pe_touch)
-                ch.calc_JP_Q(0, objarr(data["Fjp"]), *pe_touch)
-            else:
-                sol.calc_SINR()
-                sol.calc_Q(0)
+    if kind == "pl":
+        PLm = data["PL"][arg]
+        if PLm is None:
+            ch.set_pathloss(None)
+        elif ext:
+            ch.set_pathloss(np.array(PLm[:, :K], copy=True), np.array(PLm[:, K:], copy=True))
         else:
-            raise ValueError(kind)
+            ch.set_pathloss(np.array(PLm, copy=True))
+    elif kind == "noise":
+        ch.noise_var = H_NOISES[arg]
+    elif kind == "init":
+        _hist_init(cfg, data, st, arg)
+    elif kind == "rand":
+        # the library's only random draw is scripted: it returns family member `arg`
+        def fake(_rs, *shape, H2=data["H"][arg]):
+            assert tuple(int(v) for v in shape) == H2.shape, (shape, H2.shape)
+            return np.array(H2, copy=True)
+        with seams.patched((multiuser, "randn_c_RS", fake)):
+            if ext:
+                ch.randomize(Nr, Nt, K, _nte_arg(cfg))
+            elif len(set(cfg["Nr"])) == 1 and len(set(cfg["Nt"])) == 1:
+                ch.randomize(int(cfg["Nr"][0]), int(cfg["Nt"][0]), K)      # ints are documented
+            else:
+                ch.randomize(Nr, Nt, K)
+    elif kind == "setF":
+        if arg == "b":      # python lists are accepted too
+            sol.set_precoders(F=[np.array(m_) for m_ in _unit(data["F"][arg])])
+        else:
+            sol.set_precoders(F=objarr(_unit(data["F"][arg])))
+    elif kind == "setFull":
+        sol.set_precoders(full_F=objarr([data["F"][arg][k] * (1.7 + 0.9 * k) for k in range(K)]))
+    elif kind == "setBoth":
+        # every argument at once, with a power back-off: full_F != sqrt(P) F
+        sol.set_precoders(F=objarr(_unit(data["F"][arg])), full_F=objarr(backoff_full_F(data, arg)),
+                          P=np.array(data["Pvec"]))
+    elif kind == "setW":
+        if arg in ("a", "c"):
+            sol.set_receive_filters(W=objarr([np.array(m_) for m_ in data["W"][arg]]))
+        else:
+            sol.set_receive_filters(W_H=[np.array(m_).conj().T for m_ in data["W"][arg]])
+    elif kind == "P":
+        sol.P = np.array(data["Pvec"]) if arg else None
+    elif kind == "touch":
+        if arg == "IC":
+            ch.calc_SINR(objarr(data["F"]["a"]), objarr(data["U"]), *pe_touch)
+            ch.calc_Q(0, objarr(data["F"]["a"]), *pe_touch)
+        elif arg == "JP":
+            ch.calc_JP_SINR(objarr(data["Fjp"]), objarr(data["U"]), *pe_touch)
+            ch.calc_JP_Q(0, objarr(data["Fjp"]), *pe_touch)
+        elif arg == "solver2":
+            st.sol2.calc_SINR()
+        else:
+            sol.calc_SINR()
+            sol.calc_Q(0)
+    elif kind == "bad":
+        for name, thunk in invalid_calls(cfg, data, st, arg):
+            before = _digest_state(st)
+            raised = None
+            try:
+                thunk()
+            except Exception as e:          # noqa
+                raised = type(e).__name__
+            st.rejected.append((name, raised, _digest_state(st) == before))
+    else:
+        raise ValueError(kind)
+
+
+def hist_build(cfg, data, hist, second_solver=False):
+    st = hist_new(cfg, data, second_solver)
+    for ev in hist:
+        hist_apply(cfg, data, st, ev)
     return st
 
 
@@ -1213,6 +1390,16 @@ def hist_observe(chk, cfg, data, hist, st):
             pre, v2 = cand, got
         else:
             i += 1
+    rejected = [v for v in v2.values() if v["sig"][1].startswith("rejected_call|")]
+    if rejected:
+        # reported one by one; wrong values afterwards are consequences of the damaged objects
+        for v in rejected:
+            _, name, what = v["sig"][1].split("|")
+            chk.fail(("hist", "extint" if cfg["chan"] == "ext" else "plain", "rejected_call", name,
+                      what), dict(cfg, hist=[list(e) for e in pre]), observed=v["observed"],
+                     expected=v["expected"],
+                     msg="minimal failing sub-history of %r" % ([list(e) for e in hist],))
+        return
     rels = []
     for v in v2.values():
         sg = v["sig"]
@@ -1235,6 +1422,18 @@ def _hist_observe_raw(chk, cfg, data, hist, st):
     """all state-dependent relations for the CURRENT state against the first-principles oracle"""
     m = hist_model(hist)
     ext = cfg["chan"] == "ext"
+    for name, raised, same in st.rejected:
+        # an invalid call must raise and leave channel and solver exactly as they were
+        chk.count("eval_rejected_calls")
+        if raised is None:
+            chk.fail(("hist|errors", "rejected_call|%s|accepted_silently" % name),
+                     dict(cfg, hist=[list(e) for e in hist]), observed="no exception",
+                     expected="an exception, objects unchanged")
+        elif not same:
+            chk.fail(("hist|errors", "rejected_call|%s|raised_but_objects_changed" % name),
+                     dict(cfg, hist=[list(e) for e in hist]),
+                     observed="%s raised, digest of channel+solver attributes changed" % raised,
+                     expected="an exception, objects unchanged")
     inp = dict(K=data["K"], ntE=data["ntE"], Hraw=data["H"][m["mem"]], PL=data["PL"][m["pl"]],
                F=data["F"]["a"], Fjp=data["Fjp"], U=data["U"])
     mk = (m["mem"], m["pl"], m["noise"], m["F"], m["W"], m["P"], m["cached"], m["stale"])
@@ -1273,9 +1472,8 @@ def run_hist_unit(unit, chk):
 
         def canon(hist, st):
             m = hist_model(hist)
-            key = (m["mem"], m["pl"], m["noise"], m["F"], m["W"], m["P"],
-                   bfs.digest([vars(st.ch), {k: v for k, v in vars(st.sol).items()
-                                             if k != "_multiUserChannel"}], 9))
+            key = (m["mem"], m["pl"], m["noise"], m["F"], m["W"], m["P"], _digest_state(st),
+                   frozenset(r for r in st.rejected if not (r[1] and r[2])))
             last["key"] = key
             return key
 
@@ -1287,7 +1485,11 @@ def run_hist_unit(unit, chk):
             observed.add(key)
             hist_observe(chk, cfg, data, hist, st)
 
-        b = bfs.BFS(chk, build, lambda h, st: evs, invariant, canon, cfg["depth"] - 1,
+        def enabled(hist, st):
+            # objects damaged by a rejected call are reported and not explored further
+            return [] if any(not (r[1] and r[2]) for r in st.rejected) else evs
+
+        b = bfs.BFS(chk, build, enabled, invariant, canon, cfg["depth"] - 1,
                     label="hist")
         b.run([(tuple(unit["first"]),)])
         chk.outcome("history_depth", (cfg["alphabet"], b.depth_reached))
@@ -1304,8 +1506,136 @@ def replay_hist(case, chk):
 
 
 # ----------------------------------------------------------------------
+# Part M: several live objects used alternately (class-level / module-level state)
+# ----------------------------------------------------------------------
+def multi_objects(tier):
+    """label -> (configuration, two solvers on the one channel?, events of that object)"""
+    offs = _offs()
+
+    def cfg(chan, NtE, Nr, Nt, Ns, s):
+        return dict(kind="hist", chan=chan, NtE=NtE, Nr=Nr, Nt=Nt, Ns=Ns, s=s, offs=offs,
+                    cls="IASolverBaseClass", alphabet="multi", depth=0)
+    objs = {
+        "A": (cfg("plain", None, [2, 2], [2, 2], [2, 1], 0), True,
+              [("pl", 1), ("noise", 2), ("init", 1), ("touch", "IC"), ("touch", "solver"),
+               ("touch", "solver2"), ("setW", "b")]),
+        "C": (cfg("ext", 1, [2, 2], [2, 2], [2, 1], 1), False,
+              [("pl", 2), ("noise", 3), ("touch", "IC"), ("touch", "JP"), ("touch", "solver"),
+               ("setBoth", "b")]),
+    }
+    if tier == "thorough":
+        objs["B"] = (cfg("ext", [1, 1], [2, 3], [3, 2], [1, 2], 0), False,
+                     [("pl", 1), ("noise", 1), ("rand", 2), ("touch", "IC"), ("touch", "solver"),
+                      ("P", 1)])
+        objs["D"] = (cfg("plain", None, [2, 2], [2, 2], [2, 1], 1), False,
+                     [("pl", 2), ("noise", 3), ("touch", "JP"), ("touch", "solver"), ("setF", "b")])
+    return objs
+
+
+def multi_units(tier):
+    depth = 2
+    objs = multi_objects(tier)
+    pairs = [[lab, list(ev)] for lab in sorted(objs) for ev in objs[lab][2]]
+    yield dict(kind="multi", first=None, depth=depth)
+    for pr in pairs:
+        yield dict(kind="multi", first=pr, depth=depth)
+
+
+def _lone_outputs(cfg, data, st):
+    """a few reported values, for the bitwise comparison with a lone object"""
+    ext = cfg["chan"] == "ext"
+    pe = (0.5,) if ext else ()
+    out = {"calc_SINR": st.ch.calc_SINR(objarr(data["F"]["a"]), objarr(data["U"]), *pe),
+           "calc_JP_SINR": st.ch.calc_JP_SINR(objarr(data["Fjp"]), objarr(data["U"]), *pe),
+           "solver.calc_SINR": st.sol.calc_SINR(),
+           "solver.calc_sum_capacity": [np.array([st.sol.calc_sum_capacity()])]}
+    if st.sol2 is not None:
+        out["solver2.calc_SINR"] = st.sol2.calc_SINR()
+    return out
+
+
+def run_multi_sequence(seq, chk, tier):
+    """seq: [(label, event), ...] executed in this order on objects that are all alive; then every
+    object is compared (a) bit for bit with a lone object that saw only its own events and
+    (b) with the first-principles oracle of its own model state"""
+    objs = multi_objects(tier)
+    case = dict(kind="multi", seq=[[lab, list(ev)] for lab, ev in seq], tier_objects=sorted(objs))
+    with chk.guard(("multi_object",), case):
+        datas = {lab: hist_data(objs[lab][0]) for lab in objs}
+        live = {lab: hist_new(objs[lab][0], datas[lab], objs[lab][1]) for lab in sorted(objs)}
+        for lab, ev in seq:
+            hist_apply(objs[lab][0], datas[lab], live[lab], tuple(ev))
+        chk.count("eval_multi_object_sequences")
+        for lab in sorted(objs):
+            cfg, two, _ = objs[lab]
+            data, st = datas[lab], live[lab]
+            sub = tuple(tuple(ev) for l2, ev in seq if l2 == lab)
+            lone = hist_build(cfg, data, sub, two)
+            a, b = _lone_outputs(cfg, data, st), _lone_outputs(cfg, data, lone)
+            for fn in a:
+                chk.count("eval_multi_vs_lone_object")
+                if not (len(a[fn]) == len(b[fn]) and
+                        all(np.array_equal(np.asarray(x), np.asarray(y))
+                            for x, y in zip(a[fn], b[fn]))):
+                    chk.fail(("multi_object", cfg["chan"], "differs_from_lone_object", fn),
+                             dict(case, object=lab), observed=list(a[fn]), expected=list(b[fn]))
+            tmp = chk.child_check()
+            _hist_observe_raw(tmp, cfg, data, sub, st)
+            if st.sol2 is not None:
+                m2 = dict(hist_model(()), F=("unit", "b"), W="b", P=1)
+                cached = stale = False
+                for kind, arg in sub:
+                    if (kind, arg) == ("touch", "solver2"):
+                        cached = True
+                    elif kind in ("pl", "init", "rand") and cached:
+                        stale = True
+                m = hist_model(sub)
+                inp = dict(K=data["K"], ntE=data["ntE"], Hraw=data["H"][m["mem"]],
+                           PL=data["PL"][m["pl"]], F=data["F"]["a"], Fjp=data["Fjp"], U=data["U"])
+                Fn, P, fullF = model_precoders(m2, data)
+                run_solver_case(dict(cfg, hist=[list(e) for e in sub], noise=H_NOISES[m["noise"]],
+                                     pl=m["pl"], fmode="hist", wmode="hist", int_layout=False,
+                                     model_key="solver2", var=None, pe=None), tmp,
+                                live=dict(view="hist|solver2", inp=inp, ch=st.ch, sol=st.sol2,
+                                          Fn=Fn, P=P, fullF=fullF, W=data["W"]["b"], stale=stale))
+            state = tmp.state()
+            viol = state["violations"]
+            state["violations"] = {}
+            chk.absorb(state)
+            if viol:
+                names = sorted(set(v["sig"][1] for v in viol.values()))
+                primary = next((r for r in REL_PRIORITY if r in names), names[0])
+                first = sorted(viol.values(), key=lambda v: (v["sig"][1] != primary, v["sig"]))[0]
+                chk.fail(("multi_object", cfg["chan"], "wrong_vs_first_principles", primary),
+                         dict(case, object=lab), observed=first["observed"],
+                         expected=first["expected"],
+                         msg="failing relations of object %s: %s"
+                             % (lab, sorted(set("%s:%s" % (v["sig"][0].split("|")[-1], v["sig"][1])
+                                                for v in viol.values()))))
+
+
+def run_multi_unit(unit, chk):
+    if "seq" in unit:                                   # replay of one stored sequence
+        tier = "thorough" if any(l in ("B", "D") for l in unit.get("tier_objects", [])) else "quick"
+        run_multi_sequence([(lab, tuple(ev)) for lab, ev in unit["seq"]], chk, tier)
+        return
+    objs = multi_objects(chk.tier)
+    pairs = [(lab, tuple(ev)) for lab in sorted(objs) for ev in objs[lab][2]]
+    if unit["first"] is None:
+        run_multi_sequence([], chk, chk.tier)
+        return
+    first = (unit["first"][0], tuple(unit["first"][1]))
+    run_multi_sequence([first], chk, chk.tier)
+    if unit["depth"] >= 2:
+        for second in pairs:
+            run_multi_sequence([first, second], chk, chk.tier)
+
+
+# ----------------------------------------------------------------------
 def run_case(case, chk):
-    if case["kind"] == "hist":
+    if case["kind"] == "multi":
+        run_multi_unit(case, chk)
+    elif case["kind"] == "hist":
         if "hist" in case:
             replay_hist(case, chk)
         else:
@@ -1349,13 +1679,18 @@ def main(chk: Check):
     chk.extra["scale_cases"] = sum(1 for _ in scale_cases(chk.tier))
     chk.extra["scale_families"] = [n for n, _ in SCALES] + [
         "noise %r" % SCALE_NOISES, "pe %r" % SCALE_PES]
+    chk.extra["multi_object_units"] = sum(1 for _ in multi_units(chk.tier))
+    chk.extra["multi_objects"] = {lab: [o[0]["chan"], o[0]["NtE"], o[0]["Nr"], o[0]["Nt"],
+                                        "two solvers" if o[1] else "one solver"]
+                                  for lab, o in multi_objects(chk.tier).items()}
     chk.extra["history_units"] = sum(1 for _ in hist_units(chk.tier))
     chk.extra["history_configurations"] = [list(c[:6]) + [c[6], "depth %d" % c[7]]
                                            for c in hist_configs(chk.tier)]
 
     def worker(i, n, c):
         # the (heavier) history units first so that they spread evenly over the workers
-        for case in shard(itertools.chain(hist_units(c.tier), scale_cases(c.tier),
+        for case in shard(itertools.chain(hist_units(c.tier), multi_units(c.tier),
+                                          scale_cases(c.tier),
                                           all_cases(c.tier)), i, n):
             run_case(case, c)
 
@@ -1373,6 +1708,9 @@ def main(chk: Check):
     chk.require_outcomes("configuration", 100)
     chk.require_outcomes("history_model_state", 200)
     chk.require_outcomes("history_depth", 2)
+    if not chk.counters.get("eval_multi_object_sequences", 0) >= 100:
+        from vmc.report import Broken
+        raise Broken("vacuous: multi-object sequences not executed")
     chk.require_outcomes("denominator_decade", 30)
     if not chk.counters.get("streams_with_nonzero_denominator_below_2^-52", 0) >= 1000:
         from vmc.report import Broken
